@@ -233,27 +233,33 @@ package cache
 //@   let ec0 = old(EC(c))
 //@   let n0 = old(cbn(ec0))
 //@   modifies view(c.items), ledger(EC(c))
-//@   at Range: invariant {C01} removed: cbpure ==> (forall q: string :: view(c.items)[q] == ite(visited[q] && present(P[q]) && isExpired(IE(val(P[q])), t0), none, P[q]))
-//@   at Range: invariant stable: cacheInv(c) && c.items == old(c.items) && ec == ec0 && cbn(ec0) == n0
+//@   mode seq intf
+//@   lp none
+//@   at Compute: step {C02,intf} removal.legal: forall q: string :: view(c.items)[q] != old(view(c.items))[q] ==> !present(view(c.items)[q]) && present(old(view(c.items))[q]) && isExpired(IE(val(old(view(c.items))[q])), t0)
+//@   at Compute: step {C06,intf} removal.queued: (present(old(view(c.items))[act_key]) && !present(view(c.items)[act_key]) && ec != nil ==> len(evictedItems) == old(len(evictedItems)) + 1 && evictedItems[old(len(evictedItems))].k == act_key && evictedItems[old(len(evictedItems))].v == IV(val(old(view(c.items))[act_key])))
+//@   at Compute: step {C06,intf} nonremoval.quiet: !(present(old(view(c.items))[act_key]) && !present(view(c.items)[act_key]) && ec != nil) ==> len(evictedItems) == old(len(evictedItems))
+//@   at Compute: step {C06,intf} queue.stable: forall j: int :: 0 <= j && j < old(len(evictedItems)) ==> evictedItems[j].k == old(evictedItems[j].k) && evictedItems[j].v == old(evictedItems[j].v)
+//@   at Range: invariant {C01,seq} removed: cbpure ==> (forall q: string :: view(c.items)[q] == ite(visited[q] && present(P[q]) && isExpired(IE(val(P[q])), t0), none, P[q]))
+//@   at Range: invariant stable: cacheInv(c) && c.items == old(c.items) && ec == ec0 && cbn(ec0) == n0 && now == t0
 //@   at Range: invariant queue: wfslice(evictedItems) && (ec == nil ==> len(evictedItems) == 0)
-//@   at Range: invariant {C06} queued.count: cbpure && ec != nil ==> len(evictedItems) == card(P) - card(view(c.items))
-//@   at Range: invariant {C06} queued.visited: forall j: int :: 0 <= j && j < len(evictedItems) ==> visited[evictedItems[j].k]
-//@   at Range: invariant {C06} queued.entries: cbpure ==> (forall j: int :: 0 <= j && j < len(evictedItems) ==> removedEntry(P, t0, evictedItems[j].k, evictedItems[j].v))
-//@   at Range: invariant {C06} queued.distinct: forall i: int, j: int :: 0 <= i && i < j && j < len(evictedItems) ==> evictedItems[i].k != evictedItems[j].k
-//@   loop rangeindex.loop: invariant {C01} removed: cbpure ==> (forall q: string :: view(c.items)[q] == ite(present(P[q]) && isExpired(IE(val(P[q])), t0), none, P[q]))
+//@   at Range: invariant {C06,seq} queued.count: cbpure && ec != nil ==> len(evictedItems) == card(P) - card(view(c.items))
+//@   at Range: invariant {C06,seq} queued.visited: forall j: int :: 0 <= j && j < len(evictedItems) ==> visited[evictedItems[j].k]
+//@   at Range: invariant {C06,seq} queued.entries: cbpure ==> (forall j: int :: 0 <= j && j < len(evictedItems) ==> removedEntry(P, t0, evictedItems[j].k, evictedItems[j].v))
+//@   at Range: invariant {C06,seq} queued.distinct: forall i: int, j: int :: 0 <= i && i < j && j < len(evictedItems) ==> evictedItems[i].k != evictedItems[j].k
+//@   loop rangeindex.loop: invariant {C01,seq} removed: cbpure ==> (forall q: string :: view(c.items)[q] == ite(present(P[q]) && isExpired(IE(val(P[q])), t0), none, P[q]))
 //@   loop rangeindex.loop: invariant stable: cacheInv(c) && ec == ec0
 //@   loop rangeindex.loop: invariant idx: rangeindex >= -1 && rangeindex < len(evictedItems)
 //@   loop rangeindex.loop: invariant queue: wfslice(evictedItems) && (ec == nil ==> len(evictedItems) == 0)
-//@   loop rangeindex.loop: invariant {C06} queued.count: cbpure && ec != nil ==> len(evictedItems) == card(P) - card(view(c.items))
-//@   loop rangeindex.loop: invariant {C06} queued.entries: cbpure ==> (forall j: int :: 0 <= j && j < len(evictedItems) ==> removedEntry(P, t0, evictedItems[j].k, evictedItems[j].v))
-//@   loop rangeindex.loop: invariant {C06} queued.distinct: forall i: int, j: int :: 0 <= i && i < j && j < len(evictedItems) ==> evictedItems[i].k != evictedItems[j].k
+//@   loop rangeindex.loop: invariant {C06,seq} queued.count: cbpure && ec != nil ==> len(evictedItems) == card(P) - card(view(c.items))
+//@   loop rangeindex.loop: invariant {C06,seq} queued.entries: cbpure ==> (forall j: int :: 0 <= j && j < len(evictedItems) ==> removedEntry(P, t0, evictedItems[j].k, evictedItems[j].v))
+//@   loop rangeindex.loop: invariant {C06,seq} queued.distinct: forall i: int, j: int :: 0 <= i && i < j && j < len(evictedItems) ==> evictedItems[i].k != evictedItems[j].k
 //@   loop rangeindex.loop: invariant {C06} fired.count: cbpure ==> cbn(ec0) == n0 + rangeindex + 1
 //@   loop rangeindex.loop: invariant {C06} fired.entries: cbpure ==> (forall j: int :: n0 <= j && j < cbn(ec0) ==> cbf(ec0, j) == ec0 && cba(ec0, j, 0) == evictedItems[j - n0].k && cba(ec0, j, 1) == evictedItems[j - n0].v)
-//@   loop rangeindex.loop: invariant {C06} fired.once: cbpure ==> (forall i: int, j: int :: n0 <= i && i < j && j < cbn(ec0) ==> cba(ec0, i, 0) != cba(ec0, j, 0))
-//@   ensures {C01} post.state: cbpure ==> (forall q: string :: view(c.items)[q] == ite(present(P[q]) && isExpired(IE(val(P[q])), t0), none, P[q]))
-//@   ensures {C06} post.fired.count: cbpure ==> cbn(ec0) - n0 == ite(ec0 != nil, card(P) - card(view(c.items)), 0)
-//@   ensures {C06} post.fired.entries: cbpure ==> (forall j: int :: n0 <= j && j < cbn(ec0) ==> cbf(ec0, j) == ec0 && removedEntry(P, t0, cba(ec0, j, 0), cba(ec0, j, 1)))
-//@   ensures {C06} post.fired.once: cbpure ==> (forall i: int, j: int :: n0 <= i && i < j && j < cbn(ec0) ==> cba(ec0, i, 0) != cba(ec0, j, 0))
+//@   loop rangeindex.loop: invariant {C06,seq} fired.once: cbpure ==> (forall i: int, j: int :: n0 <= i && i < j && j < cbn(ec0) ==> cba(ec0, i, 0) != cba(ec0, j, 0))
+//@   ensures {C01,seq} post.state: cbpure ==> (forall q: string :: view(c.items)[q] == ite(present(P[q]) && isExpired(IE(val(P[q])), t0), none, P[q]))
+//@   ensures {C06,seq} post.fired.count: cbpure ==> cbn(ec0) - n0 == ite(ec0 != nil, card(P) - card(view(c.items)), 0)
+//@   ensures {C06,seq} post.fired.entries: cbpure ==> (forall j: int :: n0 <= j && j < cbn(ec0) ==> cbf(ec0, j) == ec0 && removedEntry(P, t0, cba(ec0, j, 0), cba(ec0, j, 1)))
+//@   ensures {C06,seq} post.fired.once: cbpure ==> (forall i: int, j: int :: n0 <= i && i < j && j < cbn(ec0) ==> cba(ec0, i, 0) != cba(ec0, j, 0))
 //@   ensures cacheInv(c)
 //@ define liveMap(P, t) = lambda q: string :: ite(live(P[q], t), some(IV(val(P[q]))), none)
 
@@ -265,28 +271,31 @@ package cache
 //@   let S0 = old(cbset(f))
 //@   let n0 = old(cbn(f))
 //@   iterates f over liveMap(view(c.items), t0)
+//@   lp none
 //@   modifies view(c.items), ledger(EC(c)), ledger(f)
 //@   oncall f: {C07,C01} visitor.args: arg0 == itk && arg1 == IV(itv) && !isExpired(IE(itv), t0)
 //@   at Range: iteration {C07} visitor.once: itcalls <= 1
 //@   at Range: iteration {C07} visitor.stop: itcalls == 1 ==> itret == itfret
 //@   at Range: iteration {C07} visitor.skip: itcalls == 0 ==> itret
 //@   at Range: invariant stable: cacheInv(c) && c.items == old(c.items) && f != nil && (cbpure ==> n0 <= cbn(f))
-//@   at Range: invariant {C07} nowrite: cbpure ==> view(c.items) == P
-//@   at Range: invariant {C07} visited.live: cbpure ==> (forall q: string :: cbset(f)[q] == (S0[q] || (visited[q] && live(P[q], t0))))
-//@   ensures {C07,C01} post.nil: f == nil ==> cbn(f) == n0 && view(c.items) == P
-//@   ensures {C07,C01} post.sound: cbpure ==> (forall q: string :: cbset(f)[q] ==> (S0[q] || live(P[q], t0)))
-//@   ensures {C07,C01} post.complete: f != nil && cbpure && (forall j: int :: n0 <= j && j < cbn(f) ==> cbr(f, j)) ==> (forall q: string :: live(P[q], t0) ==> cbset(f)[q])
-//@   ensures {C07} post.state: cbpure ==> view(c.items) == P
+//@   at Range: invariant {C07,seq} nowrite: cbpure ==> view(c.items) == P
+//@   at Range: invariant {C07,seq} visited.live: cbpure ==> (forall q: string :: cbset(f)[q] == (S0[q] || (visited[q] && live(P[q], t0))))
+//@   ensures {C07,C01,seq} post.nil: f == nil ==> cbn(f) == n0 && view(c.items) == P
+//@   ensures {C07,C01,seq} post.sound: cbpure ==> (forall q: string :: cbset(f)[q] ==> (S0[q] || live(P[q], t0)))
+//@   ensures {C07,C01,seq} post.complete: f != nil && cbpure && (forall j: int :: n0 <= j && j < cbn(f) ==> cbr(f, j)) ==> (forall q: string :: live(P[q], t0) ==> cbset(f)[q])
+//@   ensures {C07,seq} post.state: cbpure ==> view(c.items) == P
 //@   ensures cacheInv(c)
 
 //@ func (*xsyncMap).Items
 //@   requires cacheInv(c)
+//@   lp none
 //@   let P = old(view(c.items))
 //@   let t0 = now
-//@   at Range: invariant {C07,C01} collected: forall q: string :: gomap(items)[q] == ite(visited[q], liveMap(P, t0)[q], none)
-//@   at Range: invariant stable: cacheInv(c) && view(c.items) == P
-//@   ensures {C07,C01} post.exact: forall q: string :: gomap(res0)[q] == liveMap(P, t0)[q]
-//@   ensures {C07} post.state: view(c.items) == P
+//@   at Range: invariant {C07,C01,seq} collected: forall q: string :: gomap(items)[q] == ite(visited[q], liveMap(P, t0)[q], none)
+//@   at Range: invariant {seq} nowrite: view(c.items) == P
+//@   at Range: invariant stable: cacheInv(c)
+//@   ensures {C07,C01,seq} post.exact: forall q: string :: gomap(res0)[q] == liveMap(P, t0)[q]
+//@   ensures {C07,seq} post.state: view(c.items) == P
 //@   ensures cacheInv(c)
 //@ -- twin-end Cache
 
@@ -506,27 +515,33 @@ package cache
 //@   let ec0 = old(ECOf(c))
 //@   let n0 = old(cbn(ec0))
 //@   modifies view(c.items), ledger(ECOf(c))
-//@   at Range: invariant {C01} removed: cbpure ==> (forall q: K :: view(c.items)[q] == ite(visited[q] && present(P[q]) && isExpired(IEOf(val(P[q])), t0), none, P[q]))
-//@   at Range: invariant stable: cacheInvOf(c) && c.items == old(c.items) && ec == ec0 && cbn(ec0) == n0
+//@   mode seq intf
+//@   lp none
+//@   at Compute: step {C02,intf} removal.legal: forall q: K :: view(c.items)[q] != old(view(c.items))[q] ==> !present(view(c.items)[q]) && present(old(view(c.items))[q]) && isExpired(IEOf(val(old(view(c.items))[q])), t0)
+//@   at Compute: step {C06,intf} removal.queued: (present(old(view(c.items))[act_key]) && !present(view(c.items)[act_key]) && ec != nil ==> len(evictedItems) == old(len(evictedItems)) + 1 && evictedItems[old(len(evictedItems))].k == act_key && evictedItems[old(len(evictedItems))].v == IVOf(val(old(view(c.items))[act_key])))
+//@   at Compute: step {C06,intf} nonremoval.quiet: !(present(old(view(c.items))[act_key]) && !present(view(c.items)[act_key]) && ec != nil) ==> len(evictedItems) == old(len(evictedItems))
+//@   at Compute: step {C06,intf} queue.stable: forall j: int :: 0 <= j && j < old(len(evictedItems)) ==> evictedItems[j].k == old(evictedItems[j].k) && evictedItems[j].v == old(evictedItems[j].v)
+//@   at Range: invariant {C01,seq} removed: cbpure ==> (forall q: K :: view(c.items)[q] == ite(visited[q] && present(P[q]) && isExpired(IEOf(val(P[q])), t0), none, P[q]))
+//@   at Range: invariant stable: cacheInvOf(c) && c.items == old(c.items) && ec == ec0 && cbn(ec0) == n0 && now == t0
 //@   at Range: invariant queue: wfslice(evictedItems) && (ec == nil ==> len(evictedItems) == 0)
-//@   at Range: invariant {C06} queued.count: cbpure && ec != nil ==> len(evictedItems) == card(P) - card(view(c.items))
-//@   at Range: invariant {C06} queued.visited: forall j: int :: 0 <= j && j < len(evictedItems) ==> visited[evictedItems[j].k]
-//@   at Range: invariant {C06} queued.entries: cbpure ==> (forall j: int :: 0 <= j && j < len(evictedItems) ==> removedEntryOf(P, t0, evictedItems[j].k, evictedItems[j].v))
-//@   at Range: invariant {C06} queued.distinct: forall i: int, j: int :: 0 <= i && i < j && j < len(evictedItems) ==> evictedItems[i].k != evictedItems[j].k
-//@   loop rangeindex.loop: invariant {C01} removed: cbpure ==> (forall q: K :: view(c.items)[q] == ite(present(P[q]) && isExpired(IEOf(val(P[q])), t0), none, P[q]))
+//@   at Range: invariant {C06,seq} queued.count: cbpure && ec != nil ==> len(evictedItems) == card(P) - card(view(c.items))
+//@   at Range: invariant {C06,seq} queued.visited: forall j: int :: 0 <= j && j < len(evictedItems) ==> visited[evictedItems[j].k]
+//@   at Range: invariant {C06,seq} queued.entries: cbpure ==> (forall j: int :: 0 <= j && j < len(evictedItems) ==> removedEntryOf(P, t0, evictedItems[j].k, evictedItems[j].v))
+//@   at Range: invariant {C06,seq} queued.distinct: forall i: int, j: int :: 0 <= i && i < j && j < len(evictedItems) ==> evictedItems[i].k != evictedItems[j].k
+//@   loop rangeindex.loop: invariant {C01,seq} removed: cbpure ==> (forall q: K :: view(c.items)[q] == ite(present(P[q]) && isExpired(IEOf(val(P[q])), t0), none, P[q]))
 //@   loop rangeindex.loop: invariant stable: cacheInvOf(c) && ec == ec0
 //@   loop rangeindex.loop: invariant idx: rangeindex >= -1 && rangeindex < len(evictedItems)
 //@   loop rangeindex.loop: invariant queue: wfslice(evictedItems) && (ec == nil ==> len(evictedItems) == 0)
-//@   loop rangeindex.loop: invariant {C06} queued.count: cbpure && ec != nil ==> len(evictedItems) == card(P) - card(view(c.items))
-//@   loop rangeindex.loop: invariant {C06} queued.entries: cbpure ==> (forall j: int :: 0 <= j && j < len(evictedItems) ==> removedEntryOf(P, t0, evictedItems[j].k, evictedItems[j].v))
-//@   loop rangeindex.loop: invariant {C06} queued.distinct: forall i: int, j: int :: 0 <= i && i < j && j < len(evictedItems) ==> evictedItems[i].k != evictedItems[j].k
+//@   loop rangeindex.loop: invariant {C06,seq} queued.count: cbpure && ec != nil ==> len(evictedItems) == card(P) - card(view(c.items))
+//@   loop rangeindex.loop: invariant {C06,seq} queued.entries: cbpure ==> (forall j: int :: 0 <= j && j < len(evictedItems) ==> removedEntryOf(P, t0, evictedItems[j].k, evictedItems[j].v))
+//@   loop rangeindex.loop: invariant {C06,seq} queued.distinct: forall i: int, j: int :: 0 <= i && i < j && j < len(evictedItems) ==> evictedItems[i].k != evictedItems[j].k
 //@   loop rangeindex.loop: invariant {C06} fired.count: cbpure ==> cbn(ec0) == n0 + rangeindex + 1
 //@   loop rangeindex.loop: invariant {C06} fired.entries: cbpure ==> (forall j: int :: n0 <= j && j < cbn(ec0) ==> cbf(ec0, j) == ec0 && cba(ec0, j, 0) == evictedItems[j - n0].k && cba(ec0, j, 1) == evictedItems[j - n0].v)
-//@   loop rangeindex.loop: invariant {C06} fired.once: cbpure ==> (forall i: int, j: int :: n0 <= i && i < j && j < cbn(ec0) ==> cba(ec0, i, 0) != cba(ec0, j, 0))
-//@   ensures {C01} post.state: cbpure ==> (forall q: K :: view(c.items)[q] == ite(present(P[q]) && isExpired(IEOf(val(P[q])), t0), none, P[q]))
-//@   ensures {C06} post.fired.count: cbpure ==> cbn(ec0) - n0 == ite(ec0 != nil, card(P) - card(view(c.items)), 0)
-//@   ensures {C06} post.fired.entries: cbpure ==> (forall j: int :: n0 <= j && j < cbn(ec0) ==> cbf(ec0, j) == ec0 && removedEntryOf(P, t0, cba(ec0, j, 0), cba(ec0, j, 1)))
-//@   ensures {C06} post.fired.once: cbpure ==> (forall i: int, j: int :: n0 <= i && i < j && j < cbn(ec0) ==> cba(ec0, i, 0) != cba(ec0, j, 0))
+//@   loop rangeindex.loop: invariant {C06,seq} fired.once: cbpure ==> (forall i: int, j: int :: n0 <= i && i < j && j < cbn(ec0) ==> cba(ec0, i, 0) != cba(ec0, j, 0))
+//@   ensures {C01,seq} post.state: cbpure ==> (forall q: K :: view(c.items)[q] == ite(present(P[q]) && isExpired(IEOf(val(P[q])), t0), none, P[q]))
+//@   ensures {C06,seq} post.fired.count: cbpure ==> cbn(ec0) - n0 == ite(ec0 != nil, card(P) - card(view(c.items)), 0)
+//@   ensures {C06,seq} post.fired.entries: cbpure ==> (forall j: int :: n0 <= j && j < cbn(ec0) ==> cbf(ec0, j) == ec0 && removedEntryOf(P, t0, cba(ec0, j, 0), cba(ec0, j, 1)))
+//@   ensures {C06,seq} post.fired.once: cbpure ==> (forall i: int, j: int :: n0 <= i && i < j && j < cbn(ec0) ==> cba(ec0, i, 0) != cba(ec0, j, 0))
 //@   ensures cacheInvOf(c)
 //@ define liveMapOf(P, t) = lambda q: K :: ite(liveOf(P[q], t), some(IVOf(val(P[q]))), none)
 
@@ -538,27 +553,30 @@ package cache
 //@   let S0 = old(cbset(f))
 //@   let n0 = old(cbn(f))
 //@   iterates f over liveMapOf(view(c.items), t0)
+//@   lp none
 //@   modifies view(c.items), ledger(ECOf(c)), ledger(f)
 //@   oncall f: {C07,C01} visitor.args: arg0 == itk && arg1 == IVOf(itv) && !isExpired(IEOf(itv), t0)
 //@   at Range: iteration {C07} visitor.once: itcalls <= 1
 //@   at Range: iteration {C07} visitor.stop: itcalls == 1 ==> itret == itfret
 //@   at Range: iteration {C07} visitor.skip: itcalls == 0 ==> itret
 //@   at Range: invariant stable: cacheInvOf(c) && c.items == old(c.items) && f != nil && (cbpure ==> n0 <= cbn(f))
-//@   at Range: invariant {C07} nowrite: cbpure ==> view(c.items) == P
-//@   at Range: invariant {C07} visited.live: cbpure ==> (forall q: K :: cbset(f)[q] == (S0[q] || (visited[q] && liveOf(P[q], t0))))
-//@   ensures {C07,C01} post.nil: f == nil ==> cbn(f) == n0 && view(c.items) == P
-//@   ensures {C07,C01} post.sound: cbpure ==> (forall q: K :: cbset(f)[q] ==> (S0[q] || liveOf(P[q], t0)))
-//@   ensures {C07,C01} post.complete: f != nil && cbpure && (forall j: int :: n0 <= j && j < cbn(f) ==> cbr(f, j)) ==> (forall q: K :: liveOf(P[q], t0) ==> cbset(f)[q])
-//@   ensures {C07} post.state: cbpure ==> view(c.items) == P
+//@   at Range: invariant {C07,seq} nowrite: cbpure ==> view(c.items) == P
+//@   at Range: invariant {C07,seq} visited.live: cbpure ==> (forall q: K :: cbset(f)[q] == (S0[q] || (visited[q] && liveOf(P[q], t0))))
+//@   ensures {C07,C01,seq} post.nil: f == nil ==> cbn(f) == n0 && view(c.items) == P
+//@   ensures {C07,C01,seq} post.sound: cbpure ==> (forall q: K :: cbset(f)[q] ==> (S0[q] || liveOf(P[q], t0)))
+//@   ensures {C07,C01,seq} post.complete: f != nil && cbpure && (forall j: int :: n0 <= j && j < cbn(f) ==> cbr(f, j)) ==> (forall q: K :: liveOf(P[q], t0) ==> cbset(f)[q])
+//@   ensures {C07,seq} post.state: cbpure ==> view(c.items) == P
 //@   ensures cacheInvOf(c)
 
 //@ func (*xsyncMapOf[K, V]).Items
 //@   requires cacheInvOf(c)
+//@   lp none
 //@   let P = old(view(c.items))
 //@   let t0 = now
-//@   at Range: invariant {C07,C01} collected: forall q: K :: gomap(items)[q] == ite(visited[q], liveMapOf(P, t0)[q], none)
-//@   at Range: invariant stable: cacheInvOf(c) && view(c.items) == P
-//@   ensures {C07,C01} post.exact: forall q: K :: gomap(res0)[q] == liveMapOf(P, t0)[q]
-//@   ensures {C07} post.state: view(c.items) == P
+//@   at Range: invariant {C07,C01,seq} collected: forall q: K :: gomap(items)[q] == ite(visited[q], liveMapOf(P, t0)[q], none)
+//@   at Range: invariant {seq} nowrite: view(c.items) == P
+//@   at Range: invariant stable: cacheInvOf(c)
+//@   ensures {C07,C01,seq} post.exact: forall q: K :: gomap(res0)[q] == liveMapOf(P, t0)[q]
+//@   ensures {C07,seq} post.state: view(c.items) == P
 //@   ensures cacheInvOf(c)
 //@ -- twin-end CacheOf
